@@ -342,6 +342,7 @@ SyntaxVisitor::Action Disambiguator::visitGenericSelectionExpression(const Gener
 
 SyntaxVisitor::Action Disambiguator::visitGenericAssociation(const GenericAssociationSyntax* node)
 {
+    visit(node->typeName_or_default_);
     visitMaybeAmbiguousExpression(node->expr_);
 
     return Action::Skip;
@@ -397,6 +398,7 @@ SyntaxVisitor::Action Disambiguator::visitTypeTraitExpression(const TypeTraitExp
 
 SyntaxVisitor::Action Disambiguator::visitCastExpression(const CastExpressionSyntax* node)
 {
+    visit(node->typeName_);
     visitMaybeAmbiguousExpression(node->expr_);
 
     return Action::Skip;
@@ -414,6 +416,7 @@ SyntaxVisitor::Action Disambiguator::visitCallExpression(const CallExpressionSyn
 SyntaxVisitor::Action Disambiguator::visitVAArgumentExpression(const VAArgumentExpressionSyntax* node)
 {
     visitMaybeAmbiguousExpression(node->expr_);
+    visit(node->typeName_);
 
     return Action::Skip;
 }
@@ -532,7 +535,7 @@ SyntaxVisitor::Action Disambiguator::visitDoStatement(const DoStatementSyntax* n
 
 SyntaxVisitor::Action Disambiguator::visitForStatement(const ForStatementSyntax* node)
 {
-    visit(node->initStmt_);
+    visitMaybeAmbiguousStatement(node->initStmt_);
     if (node->cond_)
         visitMaybeAmbiguousExpression(node->cond_);
     if (node->expr_)
